@@ -2,6 +2,8 @@
 from lib import hexs
 
 MODULE = "DtailModel.Props.C03"
+# translated packages (tie G) this property's theorems rest on
+GEN_UNITS = ("Regex",)
 GROUPS = ["C03"]
 BINS = True
 BUDGET = {"quick": 3000, "thorough": 60000}
